@@ -102,7 +102,35 @@ def mk(op, a, b):
     if op == '-' and a is b: return lift(0)
     if op == '*' and a.op == 'exp' and b.op == 'exp': return exp(a.a[0] + b.a[0])     # exp(u)exp(v) = exp(u+v)
     if op == '/' and a.op == 'exp' and b.op == 'exp': return exp(a.a[0] - b.a[0])
+    if op == '*' and (_has_exp_factor(a) and _has_exp_factor(b)):
+        fa, ea = _split_exp(a); fb, eb = _split_exp(b)
+        e = exp(ea + eb)
+        rest = fa if fb is None else fb if fa is None else _intern(T, '*', (fa, fb))
+        return e if rest is None else mk('*', rest, e) if not _has_exp_factor(rest) else _intern(T, '*', (rest, e))
     return _intern(T, op, (a, b))
+
+
+def _has_exp_factor(t):
+    if t.op == 'exp': return True
+    if t.op == '*': return _has_exp_factor(t.a[0]) or _has_exp_factor(t.a[1])
+    return False
+
+
+def _split_exp(t):
+    """t = rest * exp(e)  ->  (rest or None, e)   for products (through '*' only) containing exp factors"""
+    if t.op == 'exp': return None, t.a[0]
+    if t.op == '*':
+        l, r = t.a
+        if _has_exp_factor(l) and _has_exp_factor(r):
+            fl, el = _split_exp(l); fr, er = _split_exp(r)
+            rest = fl if fr is None else fr if fl is None else _intern(T, '*', (fl, fr))
+            return rest, el + er
+        if _has_exp_factor(l):
+            fl, el = _split_exp(l)
+            return (r if fl is None else _intern(T, '*', (fl, r))), el
+        fr, er = _split_exp(r)
+        return (l if fr is None else _intern(T, '*', (l, fr))), er
+    raise ValueError
 
 
 def power(b, n):
@@ -481,3 +509,81 @@ def defined_conds(*ts):
     seen = set()
     for t in ts: walk(t, f, seen)
     return [c for c in out if c is not TRUE]
+
+
+# ------------------------------------------------------------------------------------------------ ring normal form (back end for identities)
+class TooBig(Exception):
+    pass
+
+
+_LIMIT = 60000
+
+
+def _padd(p, q, sign=1):
+    r = dict(p)
+    for m, c in q.items():
+        v = r.get(m, 0) + sign * c
+        if v == 0: r.pop(m, None)
+        else: r[m] = v
+    return r
+
+
+def _mmul(m1, m2):
+    if not m1: return m2
+    if not m2: return m1
+    d = dict(m1)
+    for a, e in m2: d[a] = d.get(a, 0) + e
+    return tuple(sorted(d.items()))
+
+
+def _pmul(p, q):
+    if len(p) * len(q) > _LIMIT * 4: raise TooBig()
+    r = {}
+    for m1, c1 in p.items():
+        for m2, c2 in q.items():
+            m = _mmul(m1, m2); v = r.get(m, 0) + c1 * c2
+            if v == 0: r.pop(m, None)
+            else: r[m] = v
+    if len(r) > _LIMIT: raise TooBig()
+    return r
+
+
+_ONE = {(): Fraction(1)}
+
+
+def ratform(t, memo):
+    """t as a quotient of polynomials (num, den) over its atoms (variables, applications, exp/log/ite nodes)"""
+    r = memo.get(t.id)
+    if r is not None: return r
+    o = t.op
+    if o == 'c': r = ({(): t.a[0]} if t.a[0] != 0 else {}, _ONE)
+    elif o in ('v', 'app', 'exp', 'log', 'ite'): r = ({((t.id, 1),): Fraction(1)}, _ONE)
+    else:
+        (na, da), (nb, db) = ratform(t.a[0], memo), ratform(t.a[1], memo)
+        if o in '+-':
+            if da is db or da == db: r = (_padd(na, nb, 1 if o == '+' else -1), da)
+            else: r = (_padd(_pmul(na, db), _pmul(nb, da), 1 if o == '+' else -1), _pmul(da, db))
+        elif o == '*': r = (_pmul(na, nb), _pmul(da, db))
+        else: r = (_pmul(na, db), _pmul(da, nb))
+    memo[t.id] = r
+    return r
+
+
+def ring_equal(a, b, memo=None):
+    """True if a == b as rational functions of their atoms (identity wherever all denominators are non-zero)"""
+    if memo is None: memo = {}
+    try:
+        (na, da), (nb, db) = ratform(a, memo), ratform(b, memo)
+        if da == db: return not _padd(na, nb, -1)
+        return not _padd(_pmul(na, db), _pmul(nb, da), -1)
+    except TooBig:
+        return False
+
+
+def ring_proves(goal, memo=None):
+    """goal is a conjunction of equalities, each an identity of rational functions"""
+    if memo is None: memo = {}
+    if goal.op == 'lit': return goal.a[0]
+    if goal.op == 'and': return all(ring_proves(g, memo) for g in goal.a)
+    if goal.op == 'cmp' and goal.a[0] == '==': return ring_equal(goal.a[1], goal.a[2], memo)
+    return False
